@@ -76,6 +76,13 @@ WeightCreditedToOwner(s, p, who, lp) ==
       dTotal == BSub(LatestW(p, "fm", lp), LatestW(s, "fm", lp))
   IN dOwner # Z /\ dOwner = dTotal
      /\ \A a \in DOMAIN p.fm.hist : (a # who /\ a # "fm") => HistOf(p, a, lp) = HistOf(s, a, lp)
+(* a user's weight is the weight of the user's open positions (FarmCurve); every top-up may round by one unit *)
+CV == INSTANCE FarmCurve WITH Add <- BAdd, Mul <- BMul, Div <- BDiv, Le <- BLe, N <- BNat
+Near(x, y, k) == BLe(x, BAdd(y, k)) /\ BLe(y, BAdd(x, k))
+OpenWeight(s, a, lp) == BSum({q \in DOMAIN s.fm.pos : s.fm.pos[q].owner = a /\ s.fm.pos[q].lp = lp /\ s.fm.pos[q].open},
+                             LAMBDA q : CV!CurveWeight(s.fm.pos[q].amt, s.fm.pos[q].dur))
+WeightIsThatOfOpenPositions(s, k) ==
+  \A a \in DOMAIN s.fm.hist : a # "fm" => \A lp \in DOMAIN s.fm.hist[a] : Near(LatestW(s, a, lp), OpenWeight(s, a, lp), k)
 OpenLpsOf(s, a) == {s.fm.pos[q].lp : q \in {r \in DOMAIN s.fm.pos : s.fm.pos[r].owner = a /\ s.fm.pos[r].open}}
 NoWeightWithoutPosition(s) ==
   \A a \in DOMAIN s.fm.hist : a # "fm" => \A lp \in DOMAIN s.fm.hist[a] : (lp \notin OpenLpsOf(s, a)) => s.fm.hist[a][lp] = <<>>
@@ -110,6 +117,7 @@ Invariants(s, e, p) ==
     C16_immutable |-> Must(Immutable(s, p)),
     C16_lp_denoms_unique |-> Must(LpDenomsUnique(p)),
     C10_no_weight_without_position |-> Must(NoWeightWithoutPosition(p)),
+    C10_weight_is_that_of_open_positions |-> Must(WeightIsThatOfOpenPositions(p, BNat(200))),
     C05_farm_manager_holds_locked_lp |-> Must(\A d \in DOMAIN p.bal["fm"] :
                                                BLe(BSum({q \in DOMAIN p.fm.pos : p.fm.pos[q].lp = d}, LAMBDA q : p.fm.pos[q].amt), p.bal["fm"][d])),
     C14_no_buffer_left |-> Must(~p.pm_buffer) ]
